@@ -511,8 +511,22 @@ package server
 //@ ensures[C18] lock_free: !held(s.serviceLock)
 //@ emits UpdateLB(s, lb, slot, result)
 
-//@ func (*server.Router).saveStateSnapshot
+//@ func (*server.Router).saveStateSnapshot$1
+//@ attr trusted_summary
 //@ assigns nothing
+//@ emits ListServices(r)
+
+//@ func (*server.Router).saveStateSnapshot
+//@ requires r.services != nil
+//@ attr blocks
+//@ assigns `os.File`.content
+//@ may_emit ListServices, CreateTemp, JsonEncode, FileClose, FsRename, FileRemove, MarshalService, FsTruncate
+//@ ensures[C12] never_truncates_the_live_file: none(FsTruncate)
+//@ ensures[C12] only_a_rename_replaces_the_state_file: all(FsRename, $1 == r.statePath) && all(CreateTemp, $1 == dirOf(r.statePath))
+//@ ensures[C12] complete_before_it_replaces: first(JsonEncode(_, _), FileClose(_)) && first(FileClose(_), FsRename(_, _)) && first(ListServices(_), JsonEncode(_, _)) && count(FsRename(_, _)) <= 1
+//@ ensures[C12] success_means_replaced: result == nil ==> count(FsRename(_, _)) == 1 && count(ListServices(_)) == 1
+//@ ensures[C12] failure_leaves_the_old_file: result != nil ==> none(FsRename)
+//@ ensures[C12] snapshots_are_serialized: first(Lock(r, lockid("server.Router.snapshotLock")), ListServices(_)) && !held(r.snapshotLock) && (result == nil ==> first(FsRename(_, _), Unlock(r, lockid("server.Router.snapshotLock"))))
 //@ emits Snapshot(r)
 
 //@ func (*server.Router).installService
@@ -686,6 +700,7 @@ package server
 //@ ensures[C14] write_after_read_refused: old(b.reader) != nil ==> result0 == 0 && err == ErrWriteAfterRead && written(b) == old(written(b)) && b.overflowed == old(b.overflowed)
 //@ ensures[C14] one_byte_over_the_limit_refused: isnil(old(b.reader)) && b.maxBytes > 0 && old(b.memBytesWritten) + old(b.diskBytesWritten) + len(p) > b.maxBytes ==> result0 == 0 && err == ErrMaximumSizeExceeded && b.overflowed && written(b) == old(written(b))
 //@ ensures[C14] up_to_the_limit_accepted: isnil(old(b.reader)) && !(b.maxBytes > 0 && old(b.memBytesWritten) + old(b.diskBytesWritten) + len(p) > b.maxBytes) ==> 0 <= result0 && result0 <= len(p) && (err == nil ==> result0 == len(p)) && written(b) == old(written(b)) + substr(bytes(p), 0, result0) && b.overflowed == old(b.overflowed)
+//@ ensures[C14] overflow_flag_only_with_size_error: b.overflowed != old(b.overflowed) ==> err == ErrMaximumSizeExceeded && result0 == 0
 //@ ensures[C14] at_most_buffer_memory_in_memory: len(b.memoryBuffer.contents) <= b.maxMemBytes
 //@ ensures[C14] spills_only_when_memory_is_full: b.diskBuffer != nil && old(b.diskBuffer) == nil ==> len(old(written(b))) + len(p) > b.maxMemBytes
 
